@@ -751,6 +751,12 @@ func (m *Machine) idealHash(kind string, outLen int, in []*Term) []*Term {
 				m.addPC(tt.Implies(tt.Eq(ap.dig, digest), m.bytesEq(ap.in, in)), false)
 			}
 		}
+		// ideal hash: a digest never equals the all-zero value (the code's "empty hash" sentinel)
+		if w := 8 * outLen; w <= 64 {
+			m.addPC(tt.Not(tt.Eq(digest, tt.BVConst(w, 0))), false)
+		} else {
+			m.addPC(tt.Not(tt.Eq(digest, tt.wideConst(w, new(big.Int)))), false)
+		}
 		m.hashApps[kind] = append(apps, hashApp{in: in, out: out, dig: digest})
 	}
 	return out
@@ -787,8 +793,8 @@ func (m *Machine) opaqueMethod(fr *frame, ov OpaqueV, iv IfaceV, name string, ar
 		case "Sum":
 			out := m.idealHash(h.kind, h.outLen, h.buf)
 			pre := args[0].(SliceV)
-			all := append(m.bytesOfSlice(pre), out...)
-			return m.sliceFromBytes(all)
+			// append semantics: writes in place when the capacity of `pre` allows (callers rely on it)
+			return m.appendOp(pre, m.sliceFromBytes(out), types.NewSlice(types.Typ[types.Uint8]))
 		case "Sum64":
 			out := m.idealHash(h.kind, h.outLen, h.buf)
 			r := out[0]
